@@ -2025,7 +2025,7 @@ fn main() {
         rep.finish(0);
     }
     let total = n_air + n_direct + n_real;
-    let results = run_cases(total, args.threads, |i| {
+    let results = run_cases_isolated(total, args.threads, |i| {
         // interleave the three kinds so that a worker thread alternates between them
         if i < n_real * 3 && i % 3 == 0 {
             let j = i / 3;
@@ -2040,7 +2040,9 @@ fn main() {
     // minimise the first witness of every signature (deterministic: result order)
     let mut results = results;
     let mut seen = BTreeSet::new();
-    for r in results.iter_mut() {
+    let n_viol = results.iter().filter(|r| matches!(r.verdict, Verdict::Violated { .. })).count();
+    // on a badly broken tree skip minimisation (it re-executes the code under test in this process)
+    for r in results.iter_mut().filter(|_| n_viol <= 200) {
         if let Verdict::Violated { signature, detail } = &mut r.verdict {
             if seen.insert(signature.clone()) {
                 let cfg = detail["cfg"].as_str().unwrap_or("").to_string();
